@@ -237,9 +237,9 @@ fn signature(_: &Case, msg: &str) -> String {
 
 pub fn run(ctx: &Ctx, rep: &mut Report) {
     rep.rule = "generated object (Al in {1,2,4,8}, T multiple of Al up to 192 weighted to 1/Al/63,64,65 strides, Z <= 6, N <= 5, K per block <= 64 (quick), F with F mod T uniform incl. F < T and F = 1, data in {random, zero, 0xFF, one-hot, position-coded}) and a delivery history: a generated list of indices (with repetition) into the pool of the encoder's source packets plus repair packets with near/uniform/far ESIs, in half the cases completed with every missing source packet; optional serialize/deserialize; decoder back-end default/sparse/dense. Thorough adds K around the dense/sparse switch (241..260), K in 1000..1100 and K >= 10000. Oracle: after every Decoder::decode call the answer is None or exactly the object (length F); Some once all source packets were delivered; never back to None; the same history through per-block decoders gives None or the zero-padded block. Non-trivial = at least one block completed through the solver (>= K distinct symbols with a source symbol missing); distinct by (object, history).".into();
-    let n = ctx.tier.pick(6_000u64, 150_000);
+    let n = ctx.tier.pick(50_000u64, 400_000);
     rep.absorb("small", run_sharded("C01", "small", ctx.seed, n, 32, || strategy(64, 6, 400), check, to_json, signature));
-    let n = ctx.tier.pick(300u64, 4_000);
+    let n = ctx.tier.pick(1_500u64, 8_000);
     rep.absorb("switch", run_sharded("C01", "switch", ctx.seed, n, 32, || strategy_range(241, 262, 2, 700), check, to_json, signature));
     if ctx.tier == Tier::Thorough {
         rep.absorb("k1000", run_sharded("C01", "k1000", ctx.seed, 300, 32, || strategy_range(1000, 1100, 1, 1600), check, to_json, signature));
